@@ -204,6 +204,10 @@ def make_env(ns, uni, params, memo, defs, result_holder):
         "iff": lambda a, b: bool(a) == bool(b),
         "let": lambda v, f: f(v),
         "seq_eq": lambda a, b: list(a) == list(b),
+        "sorted_by": lambda L, key, rev=False: all((key(L[i]) >= key(L[i + 1])) if rev else (key(L[i]) <= key(L[i + 1])) for i in range(len(L) - 1)),
+        "is_perm": lambda A, B: len(A) == len(B) and all(sum(1 for y in A if y is x or y == x) == sum(1 for y in B if y is x or y == x) for x in A),
+        "sum_of": lambda L, f: sum(f(x) for x in L),
+        "sum_upto": lambda L, f, k: sum(f(x) for x in list(L)[:k]),
         "same": lambda a, b: a == b,
         "flat_elems": lambda outer, f: [x for o in outer for x in f(o)],
         "is_none": lambda x: x is None,
@@ -268,6 +272,12 @@ def main():
         src = Source(os.path.join(repo, "pDESy", "model"))
         defcls, fnast = src.get_function(qual)
         fnast.name = "_block"
+        import copy as _copy
+        from pyvc.source import BLOCKS
+        fnast = _copy.deepcopy(fnast)
+        # the block hands its locals on to the rest of the host method: expose them to the clause as final_<name>
+        fnast.body.append(ast.Return(value=ast.Call(func=ast.Name(id="locals", ctx=ast.Load()), args=[], keywords=[])))
+        block_exports = BLOCKS[qual].get("exports", [])
         modname = "pDESy.model." + src.module_of(qual)
         code = compile(ast.fix_missing_locations(ast.Module(body=[fnast], type_ignores=[])), "<block %s>" % qual, "exec")
         g = dict(vars(sys.modules[modname]))
@@ -302,6 +312,10 @@ def main():
         out["note"] = "call raised instead of returning"
     else:
         env["result"] = res
+        if "@" in qual and isinstance(res, dict):
+            for name in block_exports:
+                if name in res:
+                    env["final_" + name] = res[name]
         try:
             holds = bool(ceval(data["clause"], env))
             out["clause_value"] = holds
